@@ -65,12 +65,15 @@ def fix_wikipedia_siteinfo(siteinfo):
 
 
 
-_edges_rex = re.compile("^[\\s\u200e\u200f]+|[\\s\u200e\u200f]+$")
-
-
 def strip_edges(text):
     """strip whitespace and directional marks (LRM/RLM), in any mix, from both ends"""
-    return _edges_rex.sub("", text)
+    # (not with a regular expression: "[...]+$" is tried at every run of blanks inside
+    # the text, which is quadratic for a long run - 40000 blanks took 12 seconds)
+    while True:
+        stripped = text.strip().strip("\u200e\u200f")
+        if stripped == text:
+            return text
+        text = stripped
 
 
 class NsHandler:
